@@ -362,6 +362,8 @@ class BDDTerminalNode(BDDNode):
             raise TypeError('expected a value among [0, 1, False, True], ' +
                             'got {}'.format(value))
 
+        value = bool(value)
+
         if value not in BDDTerminalNode.Tnodes:
             node = super(BDDNode, cls).__new__(cls)
 
